@@ -222,6 +222,17 @@ def summarise(ctx, b, flavour):
                 continue
             if f[0] == "cmp" and f[1] == "Eq" and any(tag(x) == "named" and x[1] == "REMOVED_SEGMENT_NODE" for x in (f[2], f[3])):
                 infeasible = True
+            # values are compared as terms over the integers (wrap-around is C04's concern): checked_add always yields Some, and
+            # opt.filter(p) on such a value is Some exactly when p holds
+            if f[0] == "discr" and tag(f[1]) == "call" and isinstance(f[1][1], str) and f[1][1].endswith("checked_add"):
+                if f[2] in (("eq", 0), ("ne", (1,))):
+                    infeasible = True
+                continue
+            if f[0] == "discr" and tag(f[1]) == "filter":
+                opt, pv = f[1][1], f[1][2]
+                if f[2] in (("eq", 0), ("ne", (1,))) and tag(opt) == "call" and isinstance(opt[1], str) and opt[1].endswith("checked_add"):
+                    fs2.extend(implied_facts([(pv, ("eq", 0))]))
+                continue
             fs2.append(f)
         # a branch on a locally joined flag (`matches!`, `a && b`) is represented by the guards of the edges that set it (sym: _flag_phi_guards)
         gs = set([repr(k.t(f)) for f in fs2 if not sync_only_fact(f) and not found_ourselves(f) and not (f[0] == "bool" and tag(f[1]) == "phi")] + [repr(x) for x in extra])
